@@ -40,7 +40,8 @@ def dump_mir(overflow_checks=True):
     prof = 'ovf-on' if overflow_checks else 'ovf-off'
     os.makedirs(CACHE, exist_ok=True)
     target = os.path.join(CACHE, 'mir-target')
-    scratch = os.path.join(SCRATCH_ROOT, 'mirsrc')
+    # the crate path is part of cargo's fingerprint: one fixed scratch location per source root
+    scratch = os.path.join(SCRATCH_ROOT, 'mirsrc' if REPO == '/repo' else 'mirsrc-' + hashlib.md5(REPO.encode()).hexdigest()[:8])
     t0 = time.time()
     lock = open(os.path.join(CACHE, 'mirdump.lock'), 'w')
     fcntl.flock(lock, fcntl.LOCK_EX)
